@@ -48,6 +48,15 @@ theorem refs_tile (s : Bytes) (f : Span) (hf : f.1 ≤ f.2) (lens : List Nat) (h
   rw [this, fileParts_flatten s f hf lens 0 (by omega)]
   congr 1; omega
 
+/-- **Restore never looks at what is already at the destination.**  `restore_file_exact` below holds for EVERY previous content `old`;
+it speaks about the code only if the code decides what it writes without inspecting `old`.  That is read from the source on every
+run (`tools/sections/01_restoreplan.py`, a taint analysis from the destination parameter of `Repository.restore` through locals,
+containers, helper methods and the loader / writer functions): no file-system query (`stat`, `exists`, `is_file`, a read-mode `open`, …)
+is ever applied to a destination-derived path, while write-mode opens of such paths are reached.  A "skip what is already up to date"
+shortcut makes this stop compiling. -/
+theorem restore_ignores_destination :
+    Gen.restoreNeverInspectsDestination = true ∧ Gen.restoreDestinationQueries = 0 ∧ 1 ≤ Gen.restoreDestinationWriteOpens := by decide
+
 /-- **Restore of one file is exact**, for every completion order of the snapshot workers, every execution order of the
 writer threads and whatever was at the target path before (absent, shorter, longer, different). -/
 theorem restore_file_exact (s : Bytes) (f : Span) (hf : f.1 ≤ f.2) (lens : List Nat) (hsum : lens.sum = s.length)
@@ -83,6 +92,14 @@ theorem restore_file_exact (s : Bytes) (f : Span) (hf : f.1 ≤ f.2) (lens : Lis
     rw [hsz, setLength_of_le _ _ (by simpa using h2)]
     simp only [Nat.zero_add, take_zero, nil_append] at h1
     rw [h1, htile]
+
+
+/-- **The restored bytes do not depend on what was there before** (corollary, two arbitrary previous contents). -/
+theorem restore_result_independent_of_old (s : Bytes) (f : Span) (hf : f.1 ≤ f.2) (lens : List Nat) (hsum : lens.sum = s.length)
+    (hfe : f.2 ≤ s.length) (refs : List Ref) (hrefs : refs ~ fileRefs f 0 (spansFrom 0 lens))
+    (old₁ old₂ : Option Bytes) (ws₁ ws₂ : List PlanEntry) (h₁ : ws₁ ~ plan refs) (h₂ : ws₂ ~ plan refs) :
+    restoreFile (chunksOf s lens) old₁ refs ws₁ = restoreFile (chunksOf s lens) old₂ refs ws₂ := by
+  rw [restore_file_exact s f hf lens hsum hfe refs hrefs old₁ ws₁ h₁, restore_file_exact s f hf lens hsum hfe refs hrefs old₂ ws₂ h₂]
 
 /-- **Round trip.**  For every list of files (any contents, incl. empty files and only-empty trees), every alignment, every
 chunking of the padded stream, every completion order of the upload workers, every file `i`: the snapshot has exactly one
